@@ -85,6 +85,9 @@ pub struct ChoicePoint {
     pub chosen: u8,
     /// bit i set = taking option i costs one deviation
     pub cost_mask: u32,
+    /// the point is a yield / spin marker (deviations here may be charged to
+    /// a separate allowance)
+    pub at_yield: bool,
 }
 
 #[derive(Clone, Debug, PartialEq, Eq)]
@@ -475,6 +478,7 @@ impl Sched {
                 n: k as u8,
                 chosen: c as u8,
                 cost_mask: cost,
+                at_yield: kind == PointKind::Yield,
             });
             c
         };
